@@ -177,11 +177,17 @@ parsec_arena_release_chunk(parsec_arena_t* arena,
                 arena->elem_size, arena, arena->alignment, chunk, chunk->data, sizeof(parsec_arena_chunk_t),
                 PARSEC_ARENA_MIN_ALIGNMENT(arena->alignment));
         if(arena->max_released != INT32_MAX) {
-            (void)parsec_atomic_fetch_inc_int32(&arena->released);
+            /* Reserve the cache slot: the test above and this increment are not one atomic
+             * step, so concurrent releases could all pass the test and exceed the limit. */
+            if( parsec_atomic_fetch_inc_int32(&arena->released) >= arena->max_released ) {
+                (void)parsec_atomic_fetch_dec_int32(&arena->released);
+                goto release_to_system;
+            }
         }
         parsec_lifo_push(&arena->area_lifo, &chunk->item);
         return;
     }
+ release_to_system:
     PARSEC_DEBUG_VERBOSE(10, parsec_debug_output, "Arena:\tdeallocate a tile of size %zu x %zu from arena %p, aligned by %zu, base ptr %p, data ptr %p, sizeof prefix %zu(%zd)",
             arena->elem_size, chunk->count, arena, arena->alignment, chunk, chunk->data, sizeof(parsec_arena_chunk_t),
             PARSEC_ARENA_MIN_ALIGNMENT(arena->alignment));
